@@ -303,6 +303,18 @@ impl Market {
         Ok(self.set_flag(MarketFlag::Closed, closed))
     }
 
+    /// The market config, for the solver-based checks in `/verif` (`--cfg gmsol_verif`).
+    #[cfg(gmsol_verif)]
+    pub fn verif_config(&self) -> &MarketConfig {
+        &self.config
+    }
+
+    /// The market config (mutable), for the solver-based checks in `/verif` (`--cfg gmsol_verif`).
+    #[cfg(gmsol_verif)]
+    pub fn verif_config_mut(&mut self) -> &mut MarketConfig {
+        &mut self.config
+    }
+
     /// Get pool of the given kind.
     #[inline]
     pub fn pool(&self, kind: PoolKind) -> Option<Pool> {
